@@ -238,6 +238,7 @@ def check_uci(pid, tier, seed):
     rnd = random.Random(seed * 53 + 1)
     model_check(chk, "Uci", cfg="Uci" if quick else "UciBig", workers=4)
     model_check(chk, "Uci", cfg="UciPinned", workers=2, expect_violation=True)
+    model_check(chk, "Uci", cfg="UciLive", workers=2)        # liveness: every owed bestmove is eventually printed (fair SearchFinish)
     pool = Pool(wvbin, wd, seed)
     gens = gen_sequences(chk, wd, seed, 90 if quick else 2500)
     sessions = []
